@@ -27,9 +27,13 @@ var bg = context.Background()
 
 // Env is one case's world.
 type Env struct {
-	W *sim.World
-	H *hk.H
+	W       *sim.World
+	H       *hk.H
+	closers []func()
 }
+
+// OnClose registers something to close before the world (stores built outside an instance).
+func (e *Env) OnClose(f func()) { e.closers = append(e.closers, f) }
 
 func NewEnv() *Env {
 	h := hk.Global
@@ -43,6 +47,9 @@ func (e *Env) Close() {
 	e.H.ClearPoints()
 	e.H.ClearObservers()
 	e.W.SetGate(nil)
+	for _, f := range e.closers {
+		f()
+	}
 	e.W.Close()
 	// no goroutine created by go-orbit-db may survive into the next case: a
 	// straggler calling End after Reset would unbalance the pending counter
